@@ -77,8 +77,10 @@ def generate(rng, run, tier):
         inputs[0] = {"kind": "hostile", "template": "big_frame", "seed": 5, "delimited": True, "size": 6_000_000,
                      "chunk": 64, "consumer": "flat", "integration": "generic", "frontend": "raw"}
     if run == 3:
-        # one fixed heavy case per invocation (both tiers): ~100 KB of declarations that all use one label
-        inputs[0] = {"kind": "hostile", "template": "many_namespaces", "seed": 3, "delimited": True, "count": 4500,
+        # one fixed heavy case per invocation (both tiers): ~160 KB of declarations that all use one label. ~37 s of
+        # CPU here against the 15 s promptness bound, with its own 150 s watchdog: the verdict is the same on a
+        # machine 2x faster or 3x slower
+        inputs[0] = {"kind": "hostile", "template": "many_namespaces", "seed": 3, "delimited": True, "count": 6000, "timeout": 150,
                      "same_label": True, "consumer": "to_graph", "integration": "rdflib", "frontend": "bytesio"}
     return {"inputs": inputs}
 
@@ -445,7 +447,7 @@ def run_batch(inputs, sim, breaker=True):
                 if parts[0] == "S":
                     current = int(parts[1])
                     cur_len = int(parts[2])
-                    deadline = time.monotonic() + TIMEOUT
+                    deadline = time.monotonic() + inputs[current].get("timeout", TIMEOUT)
                 else:
                     i = int(parts[1])
                     results[i] = {"outcome": parts[2], "detail": parts[3], "items": int(parts[4]),
